@@ -26,8 +26,8 @@ def run(ctx):
     else:
         fam.mc_holds(ctx, "MC clumped placement", readers=1, numsegs=1, inst="P_clump3", ranges="R_all1", dmg=1,
                      dvals=("forged", "short"), faulty=1, fmodes=fm, absent=1, maxout=2)
-        fam.mc_holds(ctx, "MC duplicates on 5 servers, N=4, 2 segments", readers=1, numsegs=2, inst="P_dups5", order="Order5",
-                     ranges="R_all2", faulty=2, fmodes=("dyhb", "flaky"), absent=1, maxout=2)
+        fam.mc_holds(ctx, "MC duplicates on 5 servers, N=4", readers=1, numsegs=1, inst="P_dups5", order="Order5",
+                     ranges="R_all1", faulty=1, fmodes=fm, absent=1, maxout=2)
     fam.mc_holds(ctx, "MC all shares on one server", readers=1, numsegs=1, inst="P_one3", ranges="R_all1", dmg=1,
                  dvals=("forged",), absent=0 if ctx.quick else 1, maxout=10)
     fam.run_traces(ctx, "C03", "c03", 160 if ctx.quick else 3000)
